@@ -24,6 +24,7 @@ def run(ctx):
         ctx.guard("C18", "finalize-mismatch", lambda: gen.guards_finalize(ctx, prog, need=("mismatch",)))
         ctx.guard("C18", "finalize-delegate", lambda: gen.finalizers_delegate(ctx, prog))
         ctx.guard("C18", "const values", lambda: data.const_census(ctx, prog, data.CONST_SCOPES["C18"], floor=1))
+        ctx.guard("C18", "panic conditions", lambda: beliefs.live_census(ctx, prog, beliefs.SCOPES["C18"][0]))
         ctx.guard("C18", "summaries", lambda: summary.check(ctx, prog, 'generate_easy_std::|GeneratorError', floor=2))
         ctx.guard("C18", "path summaries", lambda: summary.check_paths(ctx, prog, 'generate_easy_std::|GeneratorError', floor=1))
         if c in ("dbg", "unsafe_dbg", "strict_dbg"):
